@@ -93,6 +93,8 @@ def gen_env(rng: Rng, n_ranks: int, faulty: bool) -> Dict[str, Any]:
     env["random_seed"] = rng.below(1 << 30)
     # the library's logger level is process-wide configuration; DEBUG enables extra code paths
     env["log_level"] = "DEBUG" if rng.chance(0.1) else "CRITICAL"
+    # the session's wall clock is simulated (time.time): start phase within a second and the jumps between operations
+    env["clock_seed"] = rng.fork("clock").below(1 << 30)
     return env
 
 
@@ -118,6 +120,9 @@ def gen_load_op(rng: Rng, world: Dict[str, Any]) -> Dict[str, Any]:
     if world["knobs"].get("fractional") and rng.chance(0.35):
         # the documented switch that keeps nanosecond-resolution timestamps unrounded
         op["environ"] = {"HTA_DISABLE_NS_ROUNDING": "1"}
+    elif world["knobs"].get("fractional") and rng.chance(0.15):
+        # the variable is present but does not say "1" (blank line in an env file, explicit "off"): rounding stays on
+        op["environ"] = {"HTA_DISABLE_NS_ROUNDING": rng.choice(["", "0", "false", "off", "no"])}
     if op["mode"] == "single":
         ranks = [f["rank"] for f in files] if op["via"] == "dir" else (
             [int(r) for r in op["files"]] if op["via"] == "dict" else
@@ -241,7 +246,7 @@ def check_load(res: Result, props: Set[str], si: int, op: Dict[str, Any], r: Dic
         if f is None or f["torn"]:
             res.violate("C01", f"invalid-file-loaded/{mode}", {"rank": rank, "file": files[rank]}, si, r["i"])
             return
-    rounding = not (op.get("environ") or {}).get("HTA_DISABLE_NS_ROUNDING")
+    rounding = (op.get("environ") or {}).get("HTA_DISABLE_NS_ROUNDING") != "1"
     if not rounding:
         res.probe("ns_rounding_disabled")
     rfs = {rank: refmodel.RefFile(ws.files[files[rank]]["doc"], rounding) for rank in loaded_ranks}
@@ -327,7 +332,9 @@ def check_load(res: Result, props: Set[str], si: int, op: Dict[str, Any], r: Dic
                     res.violate("C12", f"iteration-{'device' if rf_row['stream'] > 0 else 'host'}/{ref_mode}",
                                 {"rank": rank, "id": eid, "got": row.get("iteration"), "want": want_it}, si, r["i"])
         # --- membership
-        if e["present"] is not None:
+        if e.get("trim_unjudged"):
+            res.probe("trim_unjudged_repeated_step_rows")
+        elif e["present"] is not None:
             missing = sorted(set(e["present"]) - seen)
             extra = sorted(seen - set(e["present"]))
             if not full:
